@@ -14,7 +14,13 @@ func c03World(tp *Tape, env *Env) (*Plan, *Violation) {
 		InlinePct: 20, CondPct: 20, VarLines: true, IllTypedSets: tp.Int(0, 40, "illtyped"), NonASCII: tp.Bool("nonascii"),
 	}
 	g := &gen{tp: tp, cfg: cfg}
-	prog := g.program()
+	var prog *Program
+	if tp.Chance(20, "hubworld") {
+		cfg.WJump, cfg.WJumpE, cfg.WStop = 0, 0, 0
+		prog = g.hubProgram()
+	} else {
+		prog = g.program()
+	}
 	layout := genLayout(tp)
 	w := World{Readers: distribute(tp, prog, layout, 2)}
 	w.Host = HostSpec{Storer: []string{"rec", "mem"}[tp.Int(0, 1, "storer")], Probes: true, Seed: "s1"}
@@ -51,6 +57,7 @@ func c03World(tp *Tape, env *Env) (*Plan, *Violation) {
 		env.St.distinct("nontrivial", hashStr(fmt.Sprint(hashJSON(prog)), fmt.Sprint(hashJSON(ops))))
 	}
 	env.St.sample(map[string]any{"script": readerTexts(&w), "ops": summarizeOps(ops), "storer": w.Host.Storer})
+	journal(plan)
 	return plan, c03Exec(plan, env.St)
 }
 
